@@ -6,35 +6,58 @@
     Lean memo-table model (hit/miss pattern, length of `Cache._keys`);
 (B) `LazyContourList` access histories vs fresh contours and the Lean deque model;
 (C) in-place modification of arrays obtained through the dataset interface;
-(D) `util.hashfile` across file rewrites.
+(D) the file-monitoring lru cache (`util.hashfile`, `util.file_monitoring_lru_cache`) over a small
+    file system vs `hashlib` and the Lean file-system / LRU model;
+(E) calls interleaved with in-place writes into earlier results vs the Lean ownership automaton.
 """
 import hashlib
 import json
 import os
 
-import numpy as np
+# performance only (never a verdict): on a loaded machine the thread pools of BLAS/OpenMP spin
+# for ~100 ms per tiny solve in scipy's gaussian_kde; one thread is faster by orders of magnitude
+for _v in ("OPENBLAS_NUM_THREADS", "OMP_NUM_THREADS", "MKL_NUM_THREADS"):
+    os.environ.setdefault(_v, "1")
 
-from . import common, gen
+import numpy as np  # noqa: E402
+
+from . import common, gen  # noqa: E402
 
 ID = "C17"
 LEAN_MODULES = ["DclabModel.Properties.C17"]
 RULE = ("A: seeded call histories (60-400 calls, capacities 3/7/100) over 5 memoised functions, "
-        "arguments drawn from a pool with same-bytes/different-dtype, reshaped, F-ordered, strided, "
-        "list-vs-array, positional-vs-keyword and digit-run-together twins; a case is non-trivial "
-        "when the history contains at least one twin pair and exceeds the capacity. B: contour "
-        "access histories with max_events 1..5/None. C: every (dataset kind x accessor x write) "
-        "combination. D: hashfile across same-size and different-size rewrites. distinct = "
-        "distinct canonical histories.")
+        "arguments drawn from a pool with same-bytes twins (other dtype kind, byte order, date/time "
+        "unit, text/void, reshaped, F-ordered, strided), list-vs-array, positional-vs-keyword, "
+        "omitted-default and digit-run-together twins; plus family sweeps: one history per twin "
+        "family (every member of an argument-twin family in one slot, or every calling convention of "
+        "one argument tuple) so that every pair of twins meets inside the cache. B: contour access "
+        "histories with max_events 1..5/None. C: every (dataset kind x accessor x write) combination. "
+        "D: the file cache over a small file system (stamp-twin files, relative/link/dir-link/.. "
+        "spellings, chdir, re-targeted links, rewrites with same size/new mtime, new size/new mtime, "
+        "new size/same mtime, removal), hashfile with 100 entries and a locally decorated function "
+        "with 1/2/3/7 entries. E: calls interleaved with in-place writes into any earlier result. "
+        "A case is non-trivial when it contains a twin pair / exceeds the capacity / contains a "
+        "mutation; distinct = distinct canonical histories.")
 TRUSTED_BASE = [
-    "modelled, not verified: md5 (injective on the hashed encodings), functools.lru_cache, "
-    "collections.deque(maxlen), numpy array flags; the ASCII frames of the key encoding are "
-    "abstracted to header tokens (Model/Cache.lean: Tok)",
-    "file-hash cache: soundness rests on 'content change => (mtime_ns, size) change' (the harness "
-    "bumps mtime explicitly)"]
+    "modelled, not verified: md5 (injective on the hashed encodings), collections.deque(maxlen), "
+    "numpy array flags; the ASCII frames of the key encoding are abstracted to header tokens "
+    "(Model/Cache.lean: Tok); functools.lru_cache is modelled as `tcall lru` (hit = move to the "
+    "most-recent end, miss = append and evict the least recently used) and compared call by call "
+    "with the real cache (hashfile, capacity 100, > 100 distinct keys; capacities 1/2/3/7)",
+    "file cache: sound exactly under StampOK ('the same resolved file hashed with the same "
+    "(mtime_ns, size) has the same bytes', theorem fs_cache_sound); outside it the old digest is "
+    "served (theorem same_stamp_rewrite_is_stale; observed on the real code on every run and "
+    "recorded as D:assumption-witness-*, never a violation); path resolution (Path.resolve) and "
+    "stat are taken from the operating system (the harness reports the resolved path of every "
+    "spelling to the model)"]
 ASSUMPTIONS = ["nested lists inside list arguments are not passed to memoised functions "
-               "(the model flattens one level, as the callers do)"]
+               "(the model flattens one level, as the callers do)",
+               "file cache: a rewrite of a file changes its mtime_ns or its size (StampOK)"]
 NOT_PROVED = ["numerical content of the memoised functions (C12/C16)",
-              "lru eviction order of functools.lru_cache (trusted library)"]
+              "that CPython's functools.lru_cache is the LRU table of the model (correspondence "
+              "only: hit/miss pattern and values on every run)",
+              "hand-out policy of each memoised entry point (observed per run: public kde functions "
+              "copy, directly decorated functions alias — candidate finding cand-C17-cache-alias)"]
 
 DT = {}
 TY = {"str": 0}
@@ -105,49 +128,99 @@ def private_books(cached):
 
 
 # --------------------------------------------------------------------------------------
+def dtype_views(m, codes):
+    """reinterpretations of m's buffer under other dtypes of the same item size: same bytes, same
+    shape, other values (byte order, kind, date/time unit, text/void)"""
+    out = []
+    for c in codes:
+        try:
+            v = m.view(c)
+        except Exception:  # noqa
+            continue
+        if v.shape == m.shape:
+            out.append(v)
+    return out
+
+
+NUMERIC_VIEWS = ("<i8", ">f8", ">i8", "<u8", ">u8")
+ALL_VIEWS = NUMERIC_VIEWS + ("<c8", ">c8", "<M8[ns]", ">M8[ns]", "<m8[ns]", "<m8[us]", ">m8[us]",
+                             "|S8", "|V8", "<U2", ">U2")
+
+
 def make_pool(rng):
-    """argument pool with adversarial twins; returns dict name -> list of (args, kwargs)"""
+    """argument pool with adversarial twins; returns (pool, families): pool maps a name to a list
+    of (args, kwargs); families maps it to lists of pool indices whose entries differ only in
+    which member of a twin family (same bytes / same text, other dtype, byte order, shape,
+    layout, container, type) stands in one argument slot"""
     n = rng.choice([8, 12, 16])
     rs = np.random.RandomState(rng.randrange(2**31))
     x = rs.rand(n) * 50 + 1
     y = rs.rand(n) * 3 + 0.1
     big = np.zeros(2 * n)
     big[::2] = x
-    arrs_x = [x, x.copy(), x.view(np.int64), x.astype(np.float32), big[::2], x[::-1].copy(),
-              np.asfortranarray(x.reshape(2, -1)).reshape(-1), x + 0.0]
-    arrs_y = [y, y.view(np.int64), y.astype(np.float32), y[::-1].copy()]
-    pos = [None, (x[:3].copy(), y[:3].copy()), (x[:3].view(np.int64), y[:3].view(np.int64))]
+    x32 = x.astype(np.float32)
+    arrs_x = [x, x.copy(), x32, big[::2], x[::-1].copy(),
+              np.asfortranarray(x.reshape(2, -1)).reshape(-1), x + 0.0,
+              x.astype(">f8"), x32.view(">f4"), x32.view("<i4")] + dtype_views(x, NUMERIC_VIEWS)
+    arrs_y = [y, y.view(np.int64), y.astype(np.float32), y.view(">f8")]
+    pos = [None, (x[:3].copy(), y[:3].copy()), (x[:3].view(np.int64), y[:3].view(np.int64)),
+           (x[:3].view(">f8"), y[:3].copy())]
     pool = {"kde_histogram": [], "kde_gauss": [], "downsample_grid": [], "probe": []}
-    for ax in arrs_x:
-        for ay in arrs_y[:3]:
+    fam = {k: {} for k in pool}
+
+    def add(pk, families, entry):
+        for family in families:
+            fam[pk].setdefault(family, []).append(len(pool[pk]))
+        pool[pk].append(entry)
+
+    # calling conventions of f(a, b, samples, remove_invalid=False, ret_idx=False): defaulted
+    # parameters omitted, given by position, given by keyword (also after an omitted one)
+    grid_forms = [lambda s: ((s,), {}), lambda s: ((), {"samples": s}), lambda s: ((s, 1), {}),
+                  lambda s: ((s, True, True), {}), lambda s: ((s, True), {}),
+                  lambda s: ((s,), {"ret_idx": True}), lambda s: ((s,), {"remove_invalid": True}),
+                  lambda s: ((s, False, True), {}),
+                  lambda s: ((s,), {"remove_invalid": True, "ret_idx": True}),
+                  lambda s: ((), {"samples": s, "ret_idx": True})]
+    for ix, ax in enumerate(arrs_x):
+        for iy, ay in enumerate(arrs_y):
             if len(ax) != len(ay):
                 continue
-            for p in pos:
+            for ip, p in enumerate(pos):
                 kw = {} if p is None else {"xout": p[0], "yout": p[1]}
-                pool["kde_histogram"].append(((ax, ay), kw))
-                pool["kde_histogram"].append(((ax, ay), dict(kw, bins=(5, 6))))
-                pool["kde_gauss"].append(((ax, ay), kw))
+                hforms = [((ax, ay), kw), ((ax, ay), dict(kw, bins=(5, 6)))]
+                gforms = [((ax, ay), kw)]
+                if p is not None:      # the same call with xout / yout given by position
+                    hforms += [((ax, ay, p[0], p[1]), {}), ((ax, ay, p[0], p[1], (5, 6)), {}),
+                               ((ax, ay, p[0]), {"yout": p[1]})]
+                    gforms += [((ax, ay, p[0], p[1]), {}), ((ax, ay, p[0]), {"yout": p[1]})]
+                for i, e in enumerate(hforms):
+                    add("kde_histogram", [("x", iy, ip, i), ("form", ix, iy, ip)], e)
+                for i, e in enumerate(gforms):
+                    add("kde_gauss", [("x", iy, ip, i), ("form", ix, iy, ip)], e)
             for s in (1, 11, 3):
-                pool["downsample_grid"].append(((ax, ay, s), {}))
-                pool["downsample_grid"].append(((ax, ay), {"samples": s}))
-                pool["downsample_grid"].append(((ax, ay, s, 1), {}))
-                pool["downsample_grid"].append(((ax, ay, s, True, True), {}))
+                for i, form in enumerate(grid_forms):
+                    a_, k_ = form(s)
+                    add("downsample_grid", [("x", iy, s, i), ("form", ix, iy, s)],
+                        ((ax, ay) + a_, k_))
     m = x[:4].copy()
-    twins = [m, m.view(np.int64), m.view(np.uint8), m.reshape(2, 2), m.reshape(1, 4),
+    twins = [m, m.view(np.uint8), m.reshape(2, 2), m.reshape(1, 4),
              np.asfortranarray(m.reshape(2, 2)), m.reshape(2, 2).T, big[::2][:4], list(m),
              [m], [m, m], [], np.zeros(0), np.zeros((0, 3)), np.float64(m[0]), float(m[0]),
              np.array(m[0]), 1, 11, True, 1.0, "1", "11", None, "None", (1, 1), [1, 1],
-             "samples", b"1"]
-    for a in twins:
-        pool["probe"].append(((a,), {}))
-        pool["probe"].append(((a, 1), {}))
-        pool["probe"].append(((1, a), {}))
-        pool["probe"].append(((), {"a": a}))
-        pool["probe"].append((("a", a), {}))
-    pool["probe"] += [((1, 1), {}), ((11,), {}), ((1,), {"b": 1}), (("b", 1, 1), {}),
-                      ((), {"a": 1, "b": 2}), ((), {"b": 2, "a": 1}), ((), {"ab": 12}),
-                      ((), {"a": "b12"})]
-    return pool
+             "samples", b"1"] + dtype_views(m, ALL_VIEWS) + dtype_views(m.reshape(2, 2), NUMERIC_VIEWS)
+    for it, a in enumerate(twins):
+        add("probe", [("x", 0), ("form", it)], ((a,), {}))
+        add("probe", [("x", 1), ("form", it)], ((a, 1), {}))
+        add("probe", [("x", 2), ("form", it)], ((1, a), {}))
+        add("probe", [("x", 3), ("form", it)], ((), {"a": a}))
+        add("probe", [("x", 4), ("form", it)], (("a", a), {}))
+        add("probe", [("x", 5), ("form", it)], ((), {"b": a}))
+        add("probe", [("x", 6), ("form", it)], ((1,), {"a": a}))
+    for e in [((1, 1), {}), ((11,), {}), ((1,), {"b": 1}), (("b", 1, 1), {}),
+              ((), {"a": 1, "b": 2}), ((), {"b": 2, "a": 1}), ((), {"ab": 12}),
+              ((), {"a": "b12"})]:
+        add("probe", [("x", "mixed")], e)
+    return pool, {k: {g: v for g, v in fam[k].items() if len(v) > 1} for k in fam}
 
 
 def describe(args, kwargs):
@@ -158,6 +231,29 @@ def describe(args, kwargs):
             return (type(a).__name__,) + tuple(d(x) for x in a)
         return (type(a).__name__, repr(a))
     return repr((tuple(d(a) for a in args), tuple((k, d(kwargs[k])) for k in sorted(kwargs))))
+
+
+def sweep_plans(rng, families):
+    """histories that each walk through one whole twin family (every member once, in random
+    order, then two repeats): two members that a key cannot tell apart meet while the first is
+    still cached, whatever the pair is.  Two kinds of families: the same call with another member
+    of an argument twin family ("x"), and the same arguments passed in another calling convention
+    ("form")."""
+    plans = []
+    for pk in sorted(families):
+        for kind in ("x", "form"):
+            fams = [v for g, v in families[pk].items() if g[0] == kind]
+            if pk == "probe" and kind == "x":
+                chosen = fams
+            else:
+                chosen = rng.sample(fams, min(12 if pk == "probe" else 1 if pk == "kde_gauss" else 3,
+                                              len(fams)))
+            for f in chosen:
+                fname = rng.choice(["probe_one", "probe_two"]) if pk == "probe" else pk
+                order = list(f)
+                rng.shuffle(order)
+                plans.append([(fname, i) for i in order] + [(fname, i) for i in order[:2]])
+    return plans
 
 
 def part_a(ctx):
@@ -184,12 +280,17 @@ def part_a(ctx):
     old_max = cached.MAX_SIZE
     lines, expect, histories = [], [], []
     try:
-        for h in range(ctx.n(12, 150)):
-            cap = ctx.rng.choice([3, 7, 100])
+        todo = [None] * ctx.n(12, 150)          # random histories; then family sweeps
+        for _ in range(ctx.n(2, 10)):
+            pool_s, families = make_pool(ctx.rng)
+            todo += [(pool_s, plan) for plan in sweep_plans(ctx.rng, families)]
+        for h, job in enumerate(todo):
+            sweep = job is not None
+            cap = 100 if sweep else ctx.rng.choice([3, 7, 100])
             cached.MAX_SIZE = cap
             cached.Cache.clear_cache()
-            pool = make_pool(ctx.rng)
-            ncalls = ctx.rng.randint(60, 400 if ctx.thorough else 160)
+            pool, plan = job if sweep else (make_pool(ctx.rng)[0], None)
+            ncalls = len(plan) if sweep else ctx.rng.randint(60, 400 if ctx.thorough else 160)
             lines.append(f"cap {cap}")
             expect.append(None)
             hist = []
@@ -198,11 +299,15 @@ def part_a(ctx):
             if private_books(cached) is None and h == 0:
                 ctx.note("dclab.cached.Cache no longer has _keys/_cache: hits are recognised by the "
                          "identity of the returned object, the bookkeeping-size comparison is skipped")
-            for _ in range(ncalls):
+            for step in range(ncalls):
                 fname = ctx.rng.choice(["kde_histogram", "kde_gauss", "downsample_grid",
                                         "probe_one", "probe_one", "probe_two"])
                 pk = "probe" if fname.startswith("probe") else fname
-                if recent and ctx.rng.random() < 0.35:
+                if sweep:
+                    fname, idx = plan[step]
+                    pk = "probe" if fname.startswith("probe") else fname
+                    ctx.stat("twin_sweep_calls")
+                elif recent and ctx.rng.random() < 0.35:
                     fname, idx = ctx.rng.choice(recent)       # repeat ⇒ hits
                     pk = "probe" if fname.startswith("probe") else fname
                 else:
@@ -246,7 +351,7 @@ def part_a(ctx):
                 lines.append(call_line(cobj, args, kwargs))
                 expect.append(("miss" if miss else "hit", len(books[0]) if books else None))
             histories.append((cap, hist))
-            ctx.case(("A", cap, tuple(hist)), nontrivial=len(set(hist)) > cap,
+            ctx.case(("A", cap, sweep, tuple(hist)), nontrivial=sweep or len(set(hist)) > cap,
                      sample={"part": "A", "cap": cap, "calls": len(hist),
                              "first": hist[:6]} if h == 0 else None)
     finally:
@@ -487,61 +592,374 @@ def part_c(ctx):
 
 
 def part_d(ctx):
-    """hashfile across rewrites; returns model lines / expectations (hit|miss pattern)"""
+    """the file-monitoring lru cache over a small file system: several files that may carry the
+    same (mtime, size) stamp (unpacked archive, cp -p, rsync -t), addressed through absolute,
+    relative, `..`, file-symlink and directory-symlink spellings (str and Path) from changing
+    working directories; between calls the files are rewritten (same size/new mtime, new size/new
+    mtime, new size/same mtime), re-synchronised to a common stamp, removed, links re-targeted,
+    the working directory changed.  Round 0 drives `util.hashfile` (maxsize 100, more distinct keys
+    than that), further rounds a function decorated here with `util.file_monitoring_lru_cache`
+    of capacity 1/2/3/7.
+    Oracle: the digest of what `open(spelling)` reads at call time.
+    Model (Drive/C17 `f…` ops = `fsApply`, `tcall lru (fileCfg hashedBytes cap)`, `fsRun`,
+    `fsSpec`, `fsCalls`): the same history; answers compared: raise / hit / miss, number of table
+    entries is not observable, md5 of the bytes the model says are hashed == the digest returned.
+    Never done here: a rewrite that keeps size AND mtime of a file (outside the stated assumption
+    `StampOK`; see `part_d_assumption`)."""
+    import pathlib
     common.import_dclab()
     from dclab import util
-    util.hashfile.cache_clear()
-    p = ctx.workdir / "hash.bin"
-    t = 1_600_000_000
-    lines, expect = ["cap 1000"], [None]
-    for step in range(ctx.n(60, 90)):        # < 100 distinct keys: no LRU eviction involved
-        kind = ctx.rng.choice(["same", "same", "size", "size-same-mtime", "again", "args"])
-        if kind == "same" or not p.exists():
-            size = p.stat().st_size if p.exists() else 64
-            p.write_bytes(bytes(ctx.rng.randrange(256) for _ in range(size)))
-            t += 7
-            os.utime(p, ns=(t * 10**9, t * 10**9))
+    lines, expect = [], []
+    deco = getattr(util, "file_monitoring_lru_cache", None)
+    rounds = [("hashfile", 100, ctx.n(220, 400))]
+    if deco is None:
+        ctx.note("util.file_monitoring_lru_cache not found: small-capacity rounds skipped")
+    else:
+        rounds += [("decorated", cap, ctx.n(50, 120)) for cap in (1, 2, 3, 7)]
+    cwd0 = os.getcwd()
+    for rnd, (what, cap, nsteps) in enumerate(rounds):
+        if what == "hashfile":
+            target = util.hashfile
+        else:
+            try:
+                @deco(maxsize=cap)
+                def target(fname, blocksize=65536, count=0):
+                    data = pathlib.Path(fname).read_bytes()
+                    return hashlib.md5(data if not count else data[:blocksize * count]).hexdigest()
+            except Exception as e:  # noqa
+                ctx.note(f"util.file_monitoring_lru_cache(maxsize=...) not usable: {e!r}"[:160])
+                continue
+        info = getattr(target, "cache_info", None)
+        clear = getattr(target, "cache_clear", None)
+        if not callable(info) or not callable(clear):
+            ctx.note("the file cache has no cache_info/cache_clear: hit/miss comparison with the "
+                     "model skipped, digests are still compared")
+            info = None
+        else:
+            clear()
+        try:
+            ok = fs_round(ctx, rnd, what, cap, nsteps, target, info, lines, expect)
+        finally:
+            os.chdir(cwd0)
+        if not ok:
+            break
+    return lines, expect
+
+
+def fs_round(ctx, rnd, what, cap, nsteps, target, info, lines, expect):
+    import pathlib
+    root = ctx.workdir / f"hashfs{rnd}"
+    names = ["m1", "m2", "m3"]
+    for k in names:
+        (root / k).mkdir(parents=True)
+    rb = lambda n: bytes(ctx.rng.randrange(256) for _ in range(n))  # noqa
+    clock = [1_600_000_000 + 1000 * rnd]
+    pid, spid, sent = {}, {}, {}
+
+    def ident(table, key):
+        return table.setdefault(key, len(table))
+
+    def stamp(path, fresh=True):
+        if fresh:
+            clock[0] += 7
+        os.utime(path, ns=(clock[0] * 10**9, clock[0] * 10**9))
+
+    def resync():
+        """all files get different contents of one size and one fresh time stamp"""
+        size = ctx.rng.randint(1, 300)
+        clock[0] += 7
+        for k in names:
+            (root / k / "data.bin").write_bytes(rb(size))
+            stamp(root / k / "data.bin", fresh=False)
+
+    def point(link, tgt_):
+        if os.path.lexists(link):
+            os.unlink(link)
+        os.symlink(tgt_, link)
+
+    def tell_model():
+        """send every file whose (bytes, mtime) changed since the last time"""
+        for n in names:
+            f = root / n / "data.bin"
+            real = os.path.realpath(f)
+            if f.exists():
+                cur = (f.read_bytes(), f.stat().st_mtime_ns)
+                used[n].add((cur[1], len(cur[0])))
+            else:
+                cur = None
+            if sent.get(real, None) != cur:
+                sent[real] = cur
+                lines.append(f"fremove {ident(pid, real)}" if cur is None else
+                             f"fwrite {ident(pid, real)} {blist(cur[0])} {cur[1]}")
+                expect.append("ok")
+
+    lines.append(f"fcap {cap}")
+    expect.append("ok")
+    resync()
+    used = {n: set() for n in names}      # stamps every file has had (the assumption is per file)
+    earlier = {}                          # (spelling, kwargs) -> {(resolved path, stamp)}
+    tgt = {"file": "m1", "dir": "m1"}
+    point(root / "link.bin", os.path.join("m1", "data.bin"))
+    point(root / "cur", "m1")
+    cwd = "m1"
+    prev_spell = None
+    os.chdir(root / cwd)
+    for step in range(nsteps):
+        kind = ctx.rng.choice(["again", "again", "same", "size", "size-same-mtime", "resync",
+                               "resync", "retarget", "retarget", "chdir", "chdir", "args",
+                               "remove"])
+        k = ctx.rng.choice(names)
+        f = root / k / "data.bin"
+        if not f.exists() or kind == "same":
+            f.write_bytes(rb(f.stat().st_size if f.exists() else ctx.rng.randint(1, 300)))
+            stamp(f)
         elif kind == "size":
-            p.write_bytes(bytes(ctx.rng.randrange(256) for _ in range(ctx.rng.randint(1, 300))))
-            t += 7
-            os.utime(p, ns=(t * 10**9, t * 10**9))
+            f.write_bytes(rb(ctx.rng.randint(1, 300)))
+            stamp(f)
         elif kind == "size-same-mtime":
             # modified in place, other size, time stamp restored (rsync -t, touch -r, coarse clocks)
-            old = p.stat().st_size
-            new = old
-            while new == old:
+            st = f.stat()
+            new = st.st_size
+            while (st.st_mtime_ns, new) in used[k]:     # never a stamp this file had before
                 new = ctx.rng.randint(1, 300)
-            with open(p, "r+b") as fd:
+            with open(f, "r+b") as fd:
                 fd.truncate(0)
-                fd.write(bytes(ctx.rng.randrange(256) for _ in range(new)))
-            os.utime(p, ns=(t * 10**9, t * 10**9))
+                fd.write(rb(new))
+            os.utime(f, ns=(st.st_mtime_ns, st.st_mtime_ns))
+        elif kind == "resync":
+            resync()
+        elif kind == "remove":
+            f.unlink()
+        elif kind == "retarget":
+            which = ctx.rng.choice(["file", "dir"])
+            tgt[which] = ctx.rng.choice([n for n in names if n != tgt[which]])
+            if which == "file":
+                point(root / "link.bin", os.path.join(tgt[which], "data.bin"))
+            else:
+                point(root / "cur", tgt[which])
+        elif kind == "chdir":
+            cwd = ctx.rng.choice([n for n in names + ["."] if n != cwd])
+            os.chdir(root / cwd)
+        tell_model()
+        # ---- how the file is addressed
+        if prev_spell is not None and ctx.rng.random() < 0.65:
+            sk, spell = prev_spell
+        else:
+            sk = ctx.rng.choice(["rel", "rel", "link", "link", "dirlink", "abs", "dotdot",
+                                 "rel-link", "missing"])
+            spell = {"rel": "data.bin" if cwd != "." and ctx.rng.random() < 0.8
+                     else os.path.relpath(f),
+                     "link": str(root / "link.bin"),
+                     "rel-link": os.path.relpath(root / "link.bin"),
+                     "dirlink": str(root / "cur" / "data.bin"),
+                     "abs": str(f),
+                     "dotdot": str(root / "m1" / ".." / k / "data.bin"),
+                     "missing": "nothing.bin"}[sk]
+            if ctx.rng.random() < 0.5:
+                spell = pathlib.Path(spell)
+        prev_spell = (sk, spell)
         kw = {}
-        if kind == "args":
+        if kind == "args" or ctx.rng.random() < 0.1:
             kw = {"blocksize": ctx.rng.choice([16, 64, 65536]), "count": ctx.rng.choice([0, 1, 2])}
-        hits0 = util.hashfile.cache_info().hits
+        hits0 = info().hits if info else 0
         try:
-            got = util.hashfile(p, **kw)
+            got = target(spell, **kw)
         except Exception as e:  # noqa
-            got = common.err_class(e)
-        hit = util.hashfile.cache_info().hits > hits0
-        data = p.read_bytes()
+            got = "exc:" + type(e).__name__
+        hit = info().hits > hits0 if info else None
         bs, cnt = kw.get("blocksize", 65536), kw.get("count", 0)
-        want = hashlib.md5(data if not cnt else data[:bs * cnt]).hexdigest()
-        ctx.case(("D", step, kind), nontrivial=kind in ("same", "size", "size-same-mtime"))
+        try:
+            with open(spell, "rb") as fd:
+                data = fd.read()
+            want = hashlib.md5(data if not cnt else data[:bs * cnt]).hexdigest()
+        except OSError as e:
+            data = None
+            want = "exc:" + type(e).__name__
+        ctx.case(("D", rnd, step, kind, sk, cwd), nontrivial=kind != "again" and data is not None)
         ctx.stat("D:" + kind)
+        ctx.stat("D:spelling-" + sk)
         if got != want:
-            ctx.violation("spec", "hashfile returned a stale/wrong hash after a file rewrite "
-                                  f"({kind})", {"part": "D", "step": step, "kind": kind, "kw": kw})
-            break
-        st = p.stat()
-        # the model's key: (path, (mtime_ns, size), keyword arguments) — mirror of the decorator
-        parts = ["call", blist(b"hashfile"), "-", "-", "P", enc_leaf(str(p)),
-                 "P", enc_leaf(st.st_mtime_ns), "P", enc_leaf(st.st_size)]
-        for k in sorted(kw):
-            parts += ["K", blist(k.encode()), enc_leaf(kw[k])]
-        lines.append(" ".join(parts))
-        expect.append(("hit" if hit else "miss", None))
+            ctx.violation("spec", f"{what} (lru capacity {cap}) on {str(spell)!r} returned a stale/"
+                                  f"wrong digest (step {step}: {kind}, addressed as {sk}, "
+                                  f"cwd {cwd})",
+                          {"part": "D", "round": rnd, "step": step, "kind": kind, "spelling": sk,
+                           "kw": kw})
+            return False
+        real = os.path.realpath(spell)
+        if data is not None:
+            st = os.stat(real)
+            seen = earlier.setdefault((str(spell), repr(sorted(kw.items()))), set())
+            if any(r != real and s_ == (st.st_mtime_ns, st.st_size) for r, s_ in seen):
+                ctx.stat("D:same-spelling-other-file-equal-stamp")
+            seen.add((real, (st.st_mtime_ns, st.st_size)))
+        lines.append(f"frebind {ident(spid, str(spell))} {ident(pid, real)}")
+        expect.append("ok")
+        lines.append(f"fhash {ident(spid, str(spell))} " + (f"{bs} {cnt}" if kw else "- -"))
+        expect.append(("fhash", "raise" if data is None else hit, got))
+    lines.append("fcheck")
+    expect.append("fsrun=same spec=same stampok=yes")
+    return True
+
+
+def part_d_assumption(ctx):
+    """the witness OUTSIDE the stated assumption of the file cache (Lean:
+    `same_stamp_rewrite_is_stale`): a rewrite that keeps size and mtime is served the old digest.
+    Recorded as an ASSUMPTION of the design of `file_monitoring_lru_cache`, never a violation."""
+    common.import_dclab()
+    from dclab import util
+    p = ctx.workdir / "assumption.bin"
+    try:
+        p.write_bytes(b"first-content")
+        os.utime(p, ns=(1_500_000_000 * 10**9,) * 2)
+        d1 = util.hashfile(p)
+        p.write_bytes(b"OTHER-content")                 # same size
+        os.utime(p, ns=(1_500_000_000 * 10**9,) * 2)    # same mtime
+        d2 = util.hashfile(p)
+        fresh = hashlib.md5(b"OTHER-content").hexdigest()
+        ctx.stat("D:assumption-witness-" + ("stale-as-modelled" if d2 == d1 != fresh else
+                                            "fresh" if d2 == fresh else "other"))
+        if d2 not in (d1, fresh):
+            ctx.violation("spec", "hashfile after a same-size same-mtime rewrite returned neither "
+                                  "the memoised nor the fresh digest", {"part": "D-assumption"})
+    except Exception as e:  # noqa
+        ctx.note(f"C17 part D assumption witness raised {e!r}"[:160])
+
+
+def part_e(ctx):
+    """ownership of memoised results: histories of calls (3 argument sets, capacities 1/2/100)
+    interleaved with in-place writes into ANY array received earlier.  Strict targets (the public
+    kde functions, whose wrapper copies the stored result): every call must return the fresh value
+    (property oracle).  Every target: the policy (alias / readOnly / copy) is observed once, then
+    the whole history — values AND which results are one and the same object — is compared with
+    the Lean ownership automaton (`orun`) under that policy."""
+    common.import_dclab()
+    from dclab import cached, downsampling, kde_methods
+    targets = []
+    for name in ("kde_histogram", "kde_gauss", "kde_multivariate"):
+        f = getattr(kde_methods, name, None)
+        if callable(f):
+            targets.append((name, f, True, {}))
+            try:
+                inner = f.__closure__[0].cell_contents
+                if isinstance(inner, cached.Cache):
+                    targets.append((name + ".cache", inner, False, {}))
+            except Exception:  # noqa
+                pass
+    g = getattr(downsampling, "downsample_grid", None)
+    if callable(g):
+        targets.append(("downsample_grid", g, False, {"samples": 5}))
+        targets.append(("downsample_grid+idx", g, False, {"samples": 5, "ret_idx": True}))
+    lines, expect = [], []
+    old_max = cached.MAX_SIZE
+    rs = np.random.RandomState(ctx.rng.randrange(2**31))
+    argsets = [(rs.rand(12) * 40 + 1, rs.rand(12) * 2 + 0.1) for _ in range(3)]
+
+    def arrays(r):
+        return [a for a in (r if isinstance(r, tuple) else (r,)) if isinstance(a, np.ndarray)]
+
+    ids = {}
+
+    def vid(a, j):
+        return ids.setdefault((a.dtype.str, a.flat[j].tobytes()), len(ids))
+
+    def data(r):
+        return [vid(a, j) for a in arrays(r) for j in range(a.size)]
+
+    try:
+        for name, f, strict, kw in targets:
+            for h in range(ctx.n(3, 20)):
+                cap = ctx.rng.choice([1, 2, 100])
+                cached.MAX_SIZE = cap
+                cached.Cache.clear_cache()
+                try:
+                    fresh = [f(*a, **kw) for a in argsets]
+                    snap = [[np.array(x, copy=True) for x in arrays(r)] for r in fresh]
+                    again = f(*argsets[-1], **kw)
+                    if not arrays(again) or not all(x.size for x in arrays(again)):
+                        raise ValueError("empty result")
+                    if not all(x.flags.writeable for x in arrays(again)):
+                        policy = "readOnly"
+                    elif any(x is y for x, y in zip(arrays(again), arrays(fresh[-1]))):
+                        policy = "alias"
+                    else:
+                        policy = "copy"
+                except Exception as e:  # noqa
+                    ctx.note(f"C17 part E: {name} not usable: {e!r}"[:160])
+                    break
+                cached.Cache.clear_cache()
+                model_data = "|".join(blist(data(r)) for r in fresh)
+                got, ops, toks, corrupted = [], [], [], None
+                for step in range(ctx.rng.randint(8, 20)):
+                    if got and ctx.rng.random() < 0.45:
+                        r = ctx.rng.randrange(len(got))
+                        arrs = arrays(got[r])
+                        i = ctx.rng.randrange(sum(x.size for x in arrs))
+                        j, tgt = i, None
+                        for x in arrs:
+                            if j < x.size:
+                                tgt = x
+                                break
+                            j -= x.size
+                        new = (not bool(tgt.flat[j])) if tgt.dtype == bool else 1000 + len(ids)
+                        try:
+                            tgt.flat[j] = new
+                            toks.append("ok")
+                        except ValueError:
+                            toks.append("ro")
+                        probe = np.zeros(1, dtype=tgt.dtype)
+                        probe[0] = new
+                        ops.append(f"p{r}.{i}={vid(probe, 0)}")
+                    else:
+                        k = ctx.rng.randrange(len(argsets))
+                        try:
+                            r = f(*argsets[k], **kw)
+                        except Exception as e:  # noqa
+                            ctx.note(f"C17 part E: {name} raised {e!r}"[:160])
+                            break
+                        same = [q for q, o in enumerate(got) if any(
+                            x is y for x, y in zip(arrays(o), arrays(r)))]
+                        got.append(r)
+                        ops.append(f"c{k}")
+                        toks.append(f"v{same[0] if same else len(got) - 1}:{blist(data(r))}")
+                        okv = (len(arrays(r)) == len(snap[k]) and all(
+                            x.dtype == y.dtype and x.shape == y.shape and x.tobytes() == y.tobytes()
+                            for x, y in zip(arrays(r), snap[k])))
+                        if not okv and corrupted is None:
+                            corrupted = (step, k)
+                ctx.case(("E", name, cap, tuple(ops)), nontrivial=any(o[0] == "p" for o in ops))
+                ctx.stat(f"E:{name}:{policy}")
+                if corrupted is not None:
+                    if strict:
+                        ctx.violation("spec", f"{name}: after in-place writes into earlier results a "
+                                              f"call returned another value than a fresh computation "
+                                              f"(observed hand-out policy: {policy})",
+                                      {"part": "E", "target": name, "cap": cap, "ops": ops})
+                        break
+                    ctx.stat("E:direct-call-result-corrupted-by-caller-write")
+                    ctx.note("observation (findings/C17-observation-cache-alias.md): functions "
+                             "decorated with dclab.cached.Cache and called directly (e.g. "
+                             "downsample_grid) hand out the stored object writable; writing into "
+                             "the result changes what the next identical call returns")
+                lines.append(f"own {policy} {cap} {model_data} ; " + " ".join(ops))
+                expect.append(("own", " ".join(toks)))
+    finally:
+        cached.MAX_SIZE = old_max
+        cached.Cache.clear_cache()
     return lines, expect
+
+
+def canon_own(ans):
+    """`v<id>:<data>` answers with ids renamed to the index of the result that first had that id"""
+    first, out, nres = {}, [], 0
+    for t in ans.split():
+        if t.startswith("v") and ":" in t:
+            i, d = t[1:].split(":", 1)
+            first.setdefault(i, nres)
+            out.append(f"v{first[i]}:{d}")
+            nres += 1
+        else:
+            out.append(t)
+    return " ".join(out)
 
 
 def part_a2(ctx):
@@ -665,18 +1083,36 @@ def run(ctx):
     lb, eb = part_b(ctx)
     lc, ec = part_c(ctx)
     ld, ed = part_d(ctx)
+    part_d_assumption(ctx)
+    le, ee = part_e(ctx)
     part_a2(ctx)
     part_c2(ctx)
     if not ctx.lean_ok:
         return
-    lines, expect = ld + la + lb + lc, ed + ea + eb + ec
+    lines, expect = ld + la + lb + lc + le, ed + ea + eb + ec + ee
     out = ctx.lean("C17", lines)
     diffs = []
     for ln, ex, got in zip(lines, expect, out):
         if ex is None:
             continue
-        if isinstance(ex, tuple):
+        if isinstance(ex, tuple) and ex[0] == "own":
+            if canon_own(got) != ex[1]:
+                diffs.append((ln[:160], ex[1][:200], canon_own(got)[:200]))
+        elif isinstance(ex, tuple) and ex[0] == "fhash":
+            # model answer: raise | hit|miss size=<n> v=<bytes fed to md5>
             m = got.split()
+            if ex[1] == "raise":
+                bad = m[:1] != ["raise"] or not str(ex[2]).startswith("exc:")
+            else:
+                vb = bytes(int(x) for x in m[2][2:].split(",")) if m[0] in ("hit", "miss") and m[2] != "v=-" else b""
+                bad = (m[0] not in ("hit", "miss") or hashlib.md5(vb).hexdigest() != ex[2]
+                       or (ex[1] is not None and m[0] != ("hit" if ex[1] else "miss")))
+            if bad:
+                diffs.append((ln[:120], ex, got[:160]))
+        elif isinstance(ex, tuple):
+            m = got.split()
+            if "tf=" in got and ("tf=" + m[0]) not in got:
+                diffs.append((ln[:120], "fifo table and policy table agree", got))
             have = (m[0], int(m[1].split("=")[1]) if ex[1] is not None else None)
             if have != ex:
                 diffs.append((ln[:120], ex, got))
